@@ -1,12 +1,16 @@
 (* C09 — Compiled meaning depends only on the token sequence, not on its spelling.  Statements only. *)
-From SV Require Import Base Regex IR Lit AttrPat Parser RespellCorpus RespellFacts.
+From SV Require Import Base Regex IR Lit AttrPat Parser RespellCorpus RespellFacts UnescFacts.
 
 (* FULL STATEMENT: forall AST a and spellings c c', compile (print c a) = compile (print c' a).
    Proved: (1) names and keywords are compared after ASCII lower-casing (for all tokens); (2) every escape form
    of every code point below U+0800 (backslash + character, 1-6 hex digits, upper or lower case, with each kind
    of terminating white space) decodes to that code point - by computation in the kernel; (3) the 24 x 3 corpus
    of respellings compiles to equal structures - a finite check.  The unbounded statement over all selectors
-   and spellings is decided per case by the differential run (k spellings of each generated AST).  Partial. *)
+   and spellings is decided per case by the differential run (k spellings of each generated AST).  Partial.
+   UNBOUNDED part (UnescFacts, at the end of this file): for EVERY string, css_unescape over the REGENERATED pattern
+   RE_CSS_ESC computes the CSS escape specification U; hence every spelling of an identifier (any mix of literal
+   characters, backslash-character escapes and 1-6 digit hex escapes in either case with any legal terminator)
+   unescapes to that identifier, and two spellings of one identifier are one name to the parser. *)
 Theorem C09_keyword_case : forall c1 c2, lower c1 = lower c2 -> parse_anb (lower c1) = parse_anb (lower c2).
 Proof. exact anb_case. Qed.
 Print Assumptions C09_keyword_case.
@@ -24,3 +28,23 @@ Print Assumptions C09_escape_forms.
 Theorem C09_corpus_partial : forallb (fun e => forallb (same_compile (fst e)) (snd e)) corpus = true.
 Proof. exact corpus_respell. Qed.
 Print Assumptions C09_corpus_partial.
+
+(* what css_unescape computes on EVERY string: the CSS escape specification U (UnescFacts.U), read off the REGENERATED
+   pattern css_parser.RE_CSS_ESC; no bound on the length *)
+Theorem C09_unescape_spec : forall s, css_unescape s false = U 0 s.
+Proof. exact css_unescape_spec. Qed.
+Print Assumptions C09_unescape_spec.
+
+(* every spelling of an identifier text v (inductive relation `spells`: literal characters, backslash + non-hex
+   non-newline character, backslash + 1..6 hex digits of either case + a legal terminator) unescapes to v *)
+Theorem C09_spelling_unescapes : forall src v, spells src v -> css_unescape src false = v.
+Proof. exact spelling_unescapes. Qed.
+Print Assumptions C09_spelling_unescapes.
+
+Theorem C09_respelling : forall src1 src2 v, spells src1 v -> spells src2 v -> css_unescape src1 false = css_unescape src2 false.
+Proof. exact respelling. Qed.
+Print Assumptions C09_respelling.
+
+Example C09_spelling_nonvacuous :
+  spells [92; 52; 49; 32; 92; 48; 48; 48; 48; 52; 50; 92; 35; 99]%N [65; 66; 35; 99]%N.
+Proof. exact spells_example. Qed.
